@@ -443,6 +443,12 @@ def malformed_event(w):
     r = w.rng
     k = r.randrange(14)
     junk = ['', 'x', '-1', 'true false', '{', '[1,2', '9' * 40, 'null', '\x00', 'dram,,pmem', '{"a":1}', '- a\n- b', 'TRUE', '0x10']
+    # well-formed YAML/JSON of the wrong shape (null elements, missing members, wrong types) for the structured annotations
+    yjunk = ['ctr0: [null]', 'ctr0: null', 'ctr0:\n- null', 'ctr0: [{}]', 'ctr0: [{scope: null, match: null}]', '[null]', 'ctr0: [ctr1, null]',
+             'ctr0: [{match: {key: name, operator: Equals}}]', 'ctr0: [{match: {key: name, operator: Matches, values: []}}]', '{ctr0: [{weight: 99999999999}]}',
+             'ctr0: [{scope: {operator: In}, match: {key: name, operator: In, values: [null]}}]', '- null', '[{}]', '- {provider: null}', 'ctr0: {}', '{}', '[]',
+             'ctr0: [null, {}]', 'ctr0: [{match: {key: name, operator: Exists}}, null]', 'ctr0:\n- scope:\n    key: name\n    operator: Exists\n  match:\n    key: name\n    operator: NotIn\n    values: [x]\n  weight: -5000\n- null',
+             'ctr0: [{match: {key: name, operator: Exists}, weight: 2147483647}]', 'ctr1: [ctr0]', 'ctr0: [ctr0, ctr0]']
     if k == 0:
         w.emit('StopPodSandbox', pod=dict(id='nosuch-pod'))
     elif k == 1:
@@ -479,8 +485,13 @@ def malformed_event(w):
                 'cold-start', 'hide-hyperthreads', 'prefer-cpu-priority', 'balloon.balloons', 'affinity', 'anti-affinity', 'topologyhints',
                 'rdtclass', 'blockioclass', 'pick-resources-by-hints']
         for _ in range(r.choice([1, 2, 3])):
-            kk = r.choice(keys) + '.' + NS + r.choice(['', '/pod', '/container.ctr0'])
-            pod['annotations'][kk] = r.choice(junk)
+            key = r.choice(keys + ['affinity', 'anti-affinity'])
+            if key in ('affinity', 'anti-affinity') and r.random() < 0.8:
+                # container affinity is read from <namespace>/<key> (not from the <key>.<namespace>[/scope] form)
+                pod['annotations'][NS + '/' + key] = r.choice(yjunk + yjunk + junk)
+            else:
+                kk = key + '.' + NS + r.choice(['', '/pod', '/container.ctr0'])
+                pod['annotations'][kk] = r.choice(junk + yjunk)
         w.run_pod(pod)
         c = w.new_ctr(pod, name='ctr0')
         w.create(c)
